@@ -501,7 +501,7 @@ def levels_of(cfgd):
     return lv
 
 
-def replay_schedule(ctx, tag, schedule, levels, cont="M"):
+def replay_schedule(ctx, tag, schedule, levels, cont="M", also=()):
     """Runs the schedule on real processes, then completes everybody: cont = "M" observers first, "G" guard first
     (its whole life, i.e. including the drop)."""
     levels = {m: (l if l != "node" else "cal") for m, l in levels.items()}
@@ -509,6 +509,11 @@ def replay_schedule(ctx, tag, schedule, levels, cont="M"):
     hang = None
     try:
         r.follow(schedule)
+        # a TLC witness ends BEFORE the step that completes the violation: when that is the first step of a process,
+        # the process has not been started yet - the processes of the configuration that have not run do so now
+        for p in also:
+            if p not in r.procs and not r.diverged:
+                r.proc(p)
         observers = sorted(p for p in r.procs if p != "G")
         if cont == "G" and "G" in r.procs:
             r.finish("G", whole_life=any(op in ("unlink",) for p, op, f in schedule if p == "G"))
@@ -754,7 +759,8 @@ def run(ctx):
         lv = {m: ("cal" if s[0] == "falsedead" and s[1] in ("cal", "node") else "pm") for m in cfgd.get("monitors", [])}
         # the listing step of Node::list has no counterpart on the bare token files (see node_level)
         sched = [e for e in sched if e[1] not in ("scandir", "stat")]
-        jobs.append(("w-" + sig_str(s).replace(":", "_"), sched, lv, "M"))
+        jobs.append(("w-" + sig_str(s).replace(":", "_"), sched, lv, "M",
+                     tuple(cfgd.get("monitors", [])) + tuple(cfgd.get("cleaners", []))))
     npos = {}
     for cname, (recs_, cfgd) in reach.items():
         best = {}
